@@ -379,6 +379,94 @@ def rest_offset(pr, rest):
     return None
 
 
+def reader_total(chk, short, dec, spec):
+    """The reader refuses no prefix the specification defines once all its bytes are there: for every first byte that
+    starts a defined form (direct length, or a marker followed by its length bytes), with at least that many bytes of
+    input, no explicit `Err(..)` is reachable - whatever the following bytes are.  (256 x 3 constant propagations; a
+    "shortest form only" check that is off by one - `81 80` refused - is a reachable Err under 0x81.)"""
+    from mirlite import feasible_reach
+    vx = VEx(dec)
+
+    def first_byte(e):
+        from discharge import unq
+        e = strip_ref(unq(e))
+        if e[0] == "proj" and e[1][0] == "call" and tuple(e[2])[:2] == ("@Some", "0"):
+            n_ = e[1][1]
+            if n_.endswith("<impl [T]>::first") and len(e[2]) == 2:
+                return True
+            if n_.endswith("<impl [T]>::split_first") and tuple(e[2]) == ("@Some", "0", "0"):
+                return True
+            if n_.endswith("<impl [T]>::get") and len(e[1][2]) == 2 and e[1][2][1] == ("const", 0) and len(e[2]) == 2:
+                return True
+        return e[0] == "path" and e[1] == vx.root_name(1) and tuple(e[2]) == ("[0]",)
+    keys = set()
+    for l in range(len(dec.locals)):
+        ds = dec.defs.get(l, [])
+        if len(ds) != 1 or ds[0][2] != "assign" or ds[0][3]["p"]["p"]:
+            continue
+        try:
+            if first_byte(vx.rvalue(ds[0][3]["rv"], ds[0][0])):
+                keys.add(l)
+        except Exception:
+            continue
+    need = {}
+    for lo, hi, marker, extra, _ in spec:
+        if marker is None:
+            for v in range(lo, min(hi, 255) + 1):
+                need[v] = 1
+        else:
+            need[marker] = 1 + extra
+    if short == "Adpu":
+        need.update({v: 1 for v in range(0, 255)})
+    refused = {}
+    for v, n in sorted(need.items()):
+        for L_ in range(n, n + 3):
+            pins = {l: ("i", v) for l in keys}
+            pins[("byte", 1, 0)] = ("i", v)
+            pins[("len", 1)] = ("i", L_)
+            for i in feasible_reach(dec, 0, pins=pins):
+                for st in dec.blocks[i]["stmts"]:
+                    if st["s"] == "assign" and st["p"]["l"] == 0 and not st["p"]["p"] and st["rv"]["r"] == "agg" and \
+                            st["rv"].get("vname") == "Err" and not st.get("rewrap"):
+                        refused.setdefault(v, set()).add(L_)
+    chk.require(not refused, "C16-b/reader-total", short,
+                "the reader can refuse a defined prefix although all its bytes are there (first byte %s): the writer emits such "
+                "prefixes, so those lengths do not come back" % ", ".join("0x%02x" % v for v in sorted(refused)[:8]),
+                "no Err with enough input", dec.sp())
+
+
+def writer_value(chk, short, enc):
+    """The length bytes of an extended form are the length itself: the operand of to_be_bytes / to_le_bytes / the integer
+    codec is the parameter, narrowed by casts or a checked conversion only - no arithmetic (`len % u16::MAX` announces 0
+    for 65535)."""
+    vx = VEx(enc)
+    pname = vx.root_name(1)
+
+    def is_len(e):
+        e = strip_ref(e)
+        while e[0] == "cast":
+            e = strip_ref(e[1])
+        if e[0] == "path" and e[1] == pname and not e[2]:
+            return True
+        if e[0] == "proj" and tuple(e[2]) == ("@Ok", "0") and e[1][0] == "call" and e[1][2] and \
+                e[1][1] in ("core::convert::TryFrom::try_from", "core::convert::TryInto::try_into"):
+            return is_len(e[1][2][0])
+        return False
+    bad = []
+    n = 0
+    for bb, t_ in enc.calls():
+        nme = callee(t_)
+        if nme.endswith(("::to_be_bytes", "::to_le_bytes")) or (nme == "zvt_builder::encoding::Encoding::encode" and
+                                                                 [ty_str(x) for x in t_["f"]["a"]][1:2] in (["u16"], ["u32"])):
+            n += 1
+            a = vx.operand(t_["args"][0], bb)
+            if not is_len(a):
+                bad.append(show(a)[:60])
+    chk.require(not bad, "C16-b/writer-value", short,
+                "the length bytes are computed from %s, not from the length itself" % bad[:2], "to_xx_bytes(len as uN)", enc.sp(),
+                nontrivial=n > 0)
+
+
 def _nk(x):
     return tuple((0, 0) if y is None else ((1, y) if isinstance(y, int) else (2, str(y))) for y in x)
 
@@ -445,6 +533,8 @@ def run(ctx, chk):
                             "reader under first byte 0x%02X: %s; writer emits 0x%02X + %d byte(s) %s for %d..=%d"
                             % (marker, [(l[3], l[4], l[5]) for l in got], marker, extra, order or "", lo, hi),
                             "0x%02X: %d byte(s) %s, data at %d" % (marker, extra, order or "", 1 + extra), d["deserialize"].sp())
+        reader_total(chk, short, d["deserialize"], spec)
+        writer_value(chk, short, d["serialize"])
         if short == "Tlv":
             markers = {s[2] for s in spec if s[2] is not None}
             others = [l for l in rl if l[2] != "err" and not (l[2] == "direct") and not (l[0] == l[1] and l[0] in markers)]
